@@ -263,12 +263,17 @@ P('C16', claimed=True, level='other',
   level_text=('Node ids: alloc returns counter | client bits inside the client range, the counter '
               'advances cyclically (through the proved contract of bi.wrap), and a lemma by induction '
               'over that contract shows that a full window of consecutive ids is pairwise distinct and '
-              'client ranges are disjoint. Block arithmetic (adjoins/join/split) is proved. The '
-              'ContiguousBlockAllocator itself is checked against an interval-set model over ALL '
+              'client ranges are disjoint. Block arithmetic (adjoins/join/split) is proved, and of the allocator: '
+              '_find_next (entry right after the block at addr, else the first non-empty slot above addr up to '
+              'the high-water mark, None beyond the table) and _find_previous (nearest non-empty slot below addr '
+              'inside the partition) with quantified loop invariants over an uninterpreted block table, and '
+              '_split (first n slots and the rest entered in the table, free lists and high-water mark). The '
+              'ContiguousBlockAllocator as a whole is checked against an interval-set model over ALL '
               'histories of length <= 7 and ALL internal tie-breaks (bounded, exhaustive small scope), '
               'plus bus/buffer objects per client.'),
-  level_note=('The allocator invariant ties an index array, a dict of sets and two cursors through four '
-              'loops: bounded only. Bit operations modelled arithmetically with a disjointness side condition.'))
+  level_note=('The allocator invariant ties an index array, a dict of sets and two cursors: alloc/reserve/free as a '
+              'whole are bounded only; in the contracts of its parts the table is an uninterpreted array and the '
+              'free lists are ghost events. Bit operations modelled arithmetically with a disjointness side condition.'))
 
 P('C17', claimed=True, level='other', contracts=['base_netaddr_bind', 'synth_node_cmds'], drivers=['vf.drivers.C17'],
   level_text=('Discharged (pyvc, all ids/flags): BundleNetAddr.__exit__ sends the collected bundle iff the block did '
